@@ -266,10 +266,11 @@ Definition declared_gha (v : yval) : list (bytes * bytes) :=
 
 (* the shape the documentation prescribes, as far as the walk can tell the difference: the only keys named "steps" are
    jobs.<id>.steps and runs.steps, their values are sequences of mappings, and inside a step the only key named "uses"
-   is the step's own *)
+   is the step's own, with a scalar value *)
 Definition step_regular (st : yval) : bool :=
   match st with
-  | YMap _ sm => forallb (fun e => negb (beq (fst e) w_steps) && negb (mentions w_steps (snd e)) && negb (mentions w_uses (snd e))) sm
+  | YMap _ sm => forallb (fun e => negb (beq (fst e) w_steps) && negb (mentions w_steps (snd e)) && negb (mentions w_uses (snd e))
+                                 && (negb (beq (fst e) w_uses) || match snd e with YStr _ | YNull => true | _ => false end)) sm
   | o => negb (mentions w_steps o) && negb (mentions w_uses o)
   end.
 Definition steps_regular (v : yval) : bool :=
